@@ -51,6 +51,27 @@ func runFree(p schedProgram, iters int) (failures []string) {
 	return failures
 }
 
+// racePass folds the result of the separate free-running -race run (done by
+// the check script with a second, race-instrumented binary) into the evidence.
+func racePass(run *evid.Run, prop string) {
+	p := os.Getenv("VERIF_RACE_JSON")
+	if p == "" {
+		run.Assume("race pass not run in this invocation")
+		return
+	}
+	var rr map[string]any
+	b, err := os.ReadFile(p)
+	if err != nil || json.Unmarshal(b, &rr) != nil {
+		evid.Fatal("race pass produced no result (%v)", err)
+	}
+	run.Set("race_pass_sampling", rr)
+	if n, _ := rr["races"].(float64); n > 0 {
+		run.Violation(prop, "data-race", fmt.Sprintf("the race detector reported %v data race(s) in the free-running pass: %v", n, rr["first_report"]), map[string]any{"engine": "race", "log": rr["first_report"]})
+	} else if x, _ := rr["exit"].(float64); x != 0 {
+		run.Violation(prop, "free-running-failure", fmt.Sprintf("the free-running pass failed (exit %v): %v", x, rr["tail"]), map[string]any{"engine": "race", "log": rr["tail"]})
+	}
+}
+
 func init() {
 	register("C05", func(args []string) int {
 		run := evid.NewRun("C05", "model_checking")
@@ -85,7 +106,7 @@ func init() {
 		}
 		execs, points, complete := 0, 0, true
 		if run.Violations() == 0 {
-			execs, points, complete = runSched(run, "C15", pick("A-", "C-", "D-"), bound, 900, func(sig string) bool {
+			execs, points, complete = runSched(run, "C15", pick("A-", "C-", "D-", "E-"), bound, 900, func(sig string) bool {
 				return strings.HasPrefix(sig, "select") || sig == "panic" || strings.Contains(sig, "routable")
 			})
 		}
@@ -97,6 +118,10 @@ func init() {
 		run.Set("preemption_bound", bound)
 		run.Set("traces_validated_against_impl", res.States+execs)
 		run.Set("exhaustive", res.Exhaustive && complete)
+		// concurrent selectors mutate the cursor: unsynchronised access is
+		// invisible to the cooperative scheduler, so the free-running -race
+		// pass of the same programs (sampling) is part of this check too
+		racePass(run, "C15")
 		run.Set("explanation", "sequential: unbounded BFS over Add/Remove/Select on the real LoadBalancedManager (state = balancer lists + cursors), validity of every Select result and, from every reachable state, 2n further selections whose every window of n must be a permutation of the members; concurrent: Select against Add/Remove/withdrawal/suspicion under every schedule up to the preemption bound, results checked for linearisability by brute force")
 		return run.Finish()
 	})
@@ -115,19 +140,7 @@ func init() {
 		run.Set("exhaustive", complete)
 		// separate free-running -race pass (sampling; only for the
 		// "unsynchronised access" clause)
-		if p := os.Getenv("VERIF_RACE_JSON"); p != "" {
-			var rr map[string]any
-			b, err := os.ReadFile(p)
-			if err != nil || json.Unmarshal(b, &rr) != nil {
-				evid.Fatal("race pass produced no result (%v)", err)
-			}
-			run.Set("race_pass_sampling", rr)
-			if n, _ := rr["races"].(float64); n > 0 {
-				run.Violation("C20", "data-race", fmt.Sprintf("the race detector reported %v data race(s) in the free-running pass: %v", n, rr["first_report"]), map[string]any{"engine": "race", "log": rr["first_report"]})
-			}
-		} else {
-			run.Assume("race pass not run in this invocation")
-		}
+		racePass(run, "C20")
 		run.Set("explanation", "every schedule of four thread programs (connect/disconnect, routing, incoming gossip datagrams, liveness/expiry/compaction, status reads) on one real node core, with scheduling points at the real code's Mutex/RWMutex acquisitions (sync -> vsync import rewrite), up to the stated preemption bound; deadlock = no enabled thread, panics caught, step horizon for livelock, quiescent cross-component consistency; plus a separate free-running -race pass of the same thread bodies (sampling, labelled as such)")
 		return run.Finish()
 	})
